@@ -261,6 +261,13 @@ def _case(spec, ctx):
                 hand4 = by_hand(ad.export_python(), m, X2)
             if not np.allclose(t4, hand4, rtol=1e-12, atol=1e-15):
                 ctx.fail("transform:state-carried-over-between-calls", f"second data matrix: transform {t4.tolist()} by hand {hand4.tolist()}", spec)
+            if m["sensors"]:
+                try:
+                    shadow = make_adapter(models.shadow_of(m, "sensors"))
+                    shadow.transform(X2)
+                    ctx.event("shadow_adapter_used_in_between")
+                except Exception:
+                    ctx.event("shadow_adapter_not_usable")
             with ctx.formak("transform:first-data-again", spec):
                 t5 = np.asarray(ad.transform(X), float)
             if not np.array_equal(t5, t1):
